@@ -1,0 +1,61 @@
+//go:build verif
+
+package decision
+
+import (
+	"context"
+
+	pb "github.com/ipfs/boxo/bitswap/message/pb"
+	"github.com/ipfs/go-cid"
+	"github.com/libp2p/go-libp2p/core/peer"
+)
+
+// Exports for the external verification harness (build tag verif only).
+// Nothing here changes the engine: the functions below call the unexported
+// code paths that the task workers and the ledger use.
+
+// VerifNextEnvelope runs nextEnvelope (what a task worker does after a reader
+// took its one-time channel from the outbox) on the caller's goroutine.
+func (e *Engine) VerifNextEnvelope(ctx context.Context) (*Envelope, error) {
+	return e.nextEnvelope(ctx)
+}
+
+// VerifQueueStats returns the number of pending and active tasks of the peer
+// request queue.
+func (e *Engine) VerifQueueStats() (pending, active int) {
+	s := e.peerRequestQueue.Stats()
+	return s.NumPending, s.NumActive
+}
+
+// VerifPendingTopics returns the CIDs with a pending task for p.
+func (e *Engine) VerifPendingTopics(p peer.ID) []cid.Cid {
+	t := e.peerRequestQueue.PeerTopics(p)
+	if t == nil {
+		return nil
+	}
+	out := make([]cid.Cid, 0, len(t.Pending))
+	for _, k := range t.Pending {
+		out = append(out, k.(cid.Cid))
+	}
+	return out
+}
+
+// VerifPeerEntry is one entry of the CID -> peers side of the peer ledger.
+type VerifPeerEntry struct {
+	Peer     peer.ID
+	Priority int32
+	WantType pb.Message_Wantlist_WantType
+}
+
+// VerifLedgerPeers returns peerLedger.Peers(k): the peers recorded as wanting
+// k in the inverted map that NotifyNewBlocks consults.
+func (e *Engine) VerifLedgerPeers(k cid.Cid) []VerifPeerEntry {
+	e.lock.RLock()
+	defer e.lock.RUnlock()
+	ps := e.peerLedger.Peers(k)
+	out := make([]VerifPeerEntry, 0, len(ps))
+	for _, pe := range ps {
+		out = append(out, VerifPeerEntry{Peer: pe.Peer, Priority: pe.Priority, WantType: pe.WantType})
+	}
+	return out
+}
